@@ -9,7 +9,8 @@ cp -a /repo/v2 "$S/repo/v2"
 cp /verif/known_findings.json "$S/verif/" 2>/dev/null
 export GOFLAGS=-mod=mod GOPROXY=off GOSUMDB=off GOTOOLCHAIN=local
 if ! (cd "$S/repo" && patch -p1 -s < "$PATCH"); then echo "PATCH-FAILED $PATCH"; rm -rf "$S"; exit 3; fi
-if ! (cd "$S/repo/v2" && go build $(go list ./... 2>/dev/null | grep -v -e rtmididrv -e portmididrv) 2>&1 | tail -5); then echo "BUILD-FAILED"; fi
+BO=$(cd "$S/repo/v2" && go build $(go list ./... 2>/dev/null | grep -v -e rtmididrv -e portmididrv) 2>&1 | tail -5)
+if [ -n "$BO" ]; then echo "BUILD-FAILED (invalid mutant): $BO"; rm -rf "$S"; exit 4; fi
 if [ "${MUTANT_TESTS:-0}" = 1 ]; then /verif/tools/baseline.sh "$S/repo"; fi
 rc=0
 for id in "$@"; do
